@@ -34,7 +34,10 @@ RV_FAULTS = [LONG + ': .string "abc # never closed', " " * 60 + 'm: .string "a\\
              "x: .byte 0400, 08", "z: .zero 09", "z: .zero " + "9" * 4400, "li x1, " + "7" * 4400, "addi x1, x0, ٣", "addi x1, x0, １２",
              "add x1, x2", "addi x1, x2, x3", "foo: foo: nop", "loop:", "loop: nop", "ecall 5", "lui x1, -", "s: .string \"abc", "s: .string 'a#b'",
              "csrrw x1, 0x, x2", "csrrwi x1, 01, 2", "lw x32, 0(x1)", "lw x1, 0(x-1)", "a: .word", "b: .half 1,,2", "mv x1", "nop nop",
-             "lw x1, v[" + "3" * 4400 + "]", "beq x0, x0, main+0x" + "f" * 300, "jal x0, " + "2" * 4305, "\x0b", " addi x1, x0, 01"]
+             "lw x1, v[" + "3" * 4400 + "]", "beq x0, x0, main+0x" + "f" * 300, "jal x0, " + "2" * 4305, "\x0b", " addi x1, x0, 01",
+             # literals in bases without a digit limit, long enough for a DERIVED decimal text to pass the limit
+             "li x1, 0x" + "f" * 3600, "li x2, -0x" + "7" * 3700, "li x3, 0b" + "10" * 7300, "addi x1, x0, 0x" + "0" * 5000 + "7",
+             "w: .word 0x" + "f" * 3600, "lw x1, v[0x" + "1" * 3600 + "]", "la x4, v[0b" + "1" * 14500 + "]"]
 
 
 def check_load_outcome(load, text):
@@ -157,7 +160,18 @@ class RvErrors(Slice):
                 findings.append(("disagreement", f"load outcome: impl {ierr} model {merr}"))
             if merr is not None and merr[0] == 11:
                 cl.add("model-uncaught")
+        # whole-text comparison with the model's own lexer + assembler (where the model has one): ANY text, also
+        # texts the real tokenizer rejects
+        tm = self.text_model_outcome(model, text)
+        if tm is not NotImplemented:
+            ierr = self.impl_outcome(text)
+            if (ierr is None) != (tm is None) or (ierr is not None and ierr[:2] != tm[:2] and not (ierr[0] in (9, 10, 11) and tm[0] in (9, 10, 11))):
+                findings.append(("disagreement", f"load outcome on the source text: impl {ierr} model lexer+assembler {tm}"))
+            cl.add("text-level")
         return findings, cl
+
+    def text_model_outcome(self, model, text):
+        return NotImplemented
 
     def tokens(self, text):
         return RA.tokens_of(text)
@@ -228,6 +242,10 @@ class ToyErrors(RvErrors):
         from props.c19 import impl_load
         return impl_load(text, self.size)[1]
 
+    def text_model_outcome(self, model, text):
+        r = model.call([91, [self.size or 4096, [], 0, 1, [], []], [ord(c) for c in text]])
+        return r[0][0] if r[0] else None
+
     def required_classes(self, tier):
         return ["ok", "err:ParserSyntaxException", "err:ParserLabelException", "err:ParserDirectiveException",
                 "err:ParserDataSyntaxException", "err:size"]
@@ -240,11 +258,16 @@ class RtFaults(Slice):
         prog = gen_rv.gen_program(rng, maxlen=10)
         # force a fault somewhere: bad address or invalid ecall code
         k = rng.randrange(0, len(prog) + 1)
-        if rng.random() < 0.5:
+        r = rng.random()
+        if r < 0.35:
             prog.insert(k, [gen_rv.MN[rng.choice(["lw", "sb", "lh"])], rng.choice([1, 2, 3]), 0, rng.choice([0, 4, 100, 2047])])
+        elif r < 0.55:
+            # a store to an unmapped address through x0 (S-type: base, data, offset), aligned and unaligned
+            prog.insert(k, [gen_rv.MN[rng.choice(["sw", "sw", "sh", "sb"])], 0, rng.choice([1, 2, 3]), rng.choice([0, 4, 8, 100, 2044, 2047])])
         else:
             prog[k:k] = [[gen_rv.MN["addi"], 17, 0, rng.choice([0, 3, 5, 99])], [gen_rv.MN["ecall"]]]
-        return {"spec": gen_rv.gen_state_spec(rng, prog), "mode": rng.choice(["single_stage_pipeline", "five_stage_pipeline"])}
+        dc = gen_rv.gen_cache_cfg(rng) if rng.random() < 0.45 else []
+        return {"spec": gen_rv.gen_state_spec(rng, prog, dc), "mode": rng.choice(["single_stage_pipeline", "five_stage_pipeline"])}
 
     def run(self, case, model):
         spec, mode = case["spec"], case["mode"]
@@ -271,6 +294,15 @@ class RtFaults(Slice):
         if d:
             f.append(("disagreement", "fault record: " + d))
         cl.add("mode:" + mode[:4])
+        if spec[3]:
+            # with a data cache the SAME instruction must be blamed as without (a cache may only add its own rejection of a
+            # word-crossing access, earlier)
+            cl.add("dcache")
+            flat = impl_trace([spec[0], spec[1], spec[2], [], spec[4]], 600, mode=mode, extra=pipe_extra if five else None)[-1]
+            if flat[0] == 1 and flat[1][2][0] in (1, 3) and not (t[0] == 1 and t[1][2][0] == 2):
+                if t[0] != 1 or t[1][0] != flat[1][0] or t[1][2][0] != flat[1][2][0]:
+                    f.append(("violation", f"without data cache the run faults at address {flat[1][0]} ({flat[1][1]}, error {flat[1][2]}); with the cache "
+                                           f"{'it faults at ' + str(t[1][0]) + ' (' + str(t[1][1]) + ', error ' + str(t[1][2]) + ')' if t[0] == 1 else 'no fault is reported'}"))
         return f, cl
 
     def nontrivial(self, classes):
@@ -284,7 +316,7 @@ class RtFaults(Slice):
         return {"program": gen_rv.program_text(case["spec"][0]), "regs": case["spec"][1], "mode": case["mode"]}
 
     def required_classes(self, tier):
-        return ["fault", "mode:sing", "mode:five"]
+        return ["fault", "mode:sing", "mode:five", "dcache"]
 
 
 def slices():
